@@ -109,6 +109,16 @@ def gen_cases(ctx):
         for restrict in (["name"], ["n", "name"], ["tags"], []):
             cases.append({"op": "read", "reader": "geojson", "table": {"names": ["name", "tags", "n"], "nrow": 3, "cols": {"name": ["a", "b", "c"], "tags": vals, "n": [1, 2, 3]}},
                           "restrict": restrict, "cast": {}, "ragged": False, "encoding": "utf-8", "sep": ",", "header": True})
+    # wide tables (twelve and thirty columns; positions beyond the ninth, and beyond a..z for the generated names of a
+    # headerless CSV): a restricted read brings each value under its own name, whatever order the names are asked in
+    for ncol in (12, 30):
+        wn = [f"c{j}" for j in range(ncol)]
+        wide = {"names": wn, "nrow": 2, "cols": {nm: [100 * j + 1, 100 * j + 2] for j, nm in enumerate(wn)}}
+        for reader in ("df_csv", "lod_csv", "df_json", "df_parquet"):
+            for header in ((True, False) if reader in ("df_csv", "lod_csv") else (True,)):
+                for restrict in ([wn[2], wn[10]], [wn[11], wn[3], wn[0]], [wn[10], wn[9], wn[1]], [wn[ncol - 1], wn[2]], [wn[10]]):
+                    cases.append({"op": "read", "reader": reader, "table": wide, "restrict": restrict, "cast": {}, "ragged": False,
+                                  "encoding": "utf-8", "sep": ",", "header": header})
     # Parquet files written by pandas carry pandas' own schema metadata (and, with a labelled index, the index as a column)
     for index in ("default", "labelled"):
         for restrict in (["temp"], ["temp", "hum"], []):
